@@ -469,3 +469,495 @@ func ruleStepTimestampMillis(r *Run) {
 		o.OK("%d conversion(s): float64(UnixMilli())/1000 (conversion before division, unit's own factor)", n).At(r.pos(rs.Pos()))
 	}
 }
+
+// ruleSumAggregatorPlain (PV-NUM): the sum of a group is the plain running sum of its values: the
+// state is only ever `state + v` and the result is the state. (A compensated sum subtracts the
+// running sum from itself and turns an infinite sum into NaN.)
+func ruleSumAggregatorPlain(r *Run) {
+	p := r.P
+	o := r.Ob("PV-NUM", "logqlmetric.(*SumAggregator)", "sum: Apply adds the value to the one state field, Result returns that field; no term subtracts the running sum (Inf - Inf)")
+	ap := p.Method(metricPkg, "SumAggregator", "Apply")
+	rs := p.Method(metricPkg, "SumAggregator", "Result")
+	if ap == nil || rs == nil || len(ap.Params) != 2 {
+		o.Fail("-", "SumAggregator.Apply/Result not found")
+		return
+	}
+	good := true
+	field := ""
+	nStores := 0
+	allInstrs(ap, func(in ssa.Instruction) {
+		switch x := in.(type) {
+		case *ssa.Store:
+			f, base, ok := fieldNameOf(x.Addr)
+			if !ok || (base != ssa.Value(ap.Params[0]) && originValue(base) != ssa.Value(ap.Params[0])) {
+				return
+			}
+			nStores++
+			add, ok := x.Val.(*ssa.BinOp)
+			isPlain := false
+			if ok && add.Op == token.ADD {
+				for _, pr := range [][2]ssa.Value{{add.X, add.Y}, {add.Y, add.X}} {
+					lf, lb, lok := loadOfField(pr[0])
+					if lok && lf == f && (lb == ssa.Value(ap.Params[0]) || originValue(lb) == ssa.Value(ap.Params[0])) && stripConv(unspill(pr[1])) == ssa.Value(ap.Params[1]) {
+						isPlain = true
+					}
+				}
+			}
+			if !isPlain {
+				good = false
+				o.Fail(r.pos(x.Pos()), "Apply stores %s into .%s, not .%s + v", describe(x.Val, 0), f, f)
+			}
+			field = f
+		case *ssa.BinOp:
+			if x.Op == token.SUB {
+				if bt, ok := x.Type().Underlying().(*types.Basic); ok && bt.Info()&types.IsFloat != 0 {
+					good = false
+					o.Fail(r.pos(x.Pos()), "Apply subtracts floating-point terms (%s): with an infinite value or sum this yields NaN instead of the infinite sum", describe(x, 0))
+				}
+			}
+		}
+	})
+	if nStores != 1 {
+		good = false
+		o.Fail(r.pos(ap.Pos()), "Apply writes the state %d time(s), expected one `state += v`", nStores)
+	}
+	for _, ret := range returnsOf(rs) {
+		if len(ret.Results) != 1 {
+			continue
+		}
+		f, base, ok := loadOfField(unspill(ret.Results[0]))
+		if !ok || f != field || (base != ssa.Value(rs.Params[0]) && originValue(base) != ssa.Value(rs.Params[0])) {
+			good = false
+			o.Fail(r.pos(ret.Pos()), "Result returns %s, not the summed state .%s", describe(ret.Results[0], 0), field)
+		}
+	}
+	if good {
+		o.OK("Apply: .%s += v; Result: .%s", field, field).At(r.pos(ap.Pos()))
+	}
+}
+
+// paramRoots: the parameters of fn a value is computed from (through calls, conversions,
+// extracts, loads of spilled parameters).
+func paramRoots(v ssa.Value, seen map[ssa.Value]bool, out map[*ssa.Parameter]bool, d int) {
+	if v == nil || seen[v] || d > 10 {
+		return
+	}
+	seen[v] = true
+	switch x := v.(type) {
+	case *ssa.Parameter:
+		out[x] = true
+	case *ssa.Alloc:
+		for _, st := range storesTo(x) {
+			paramRoots(st.Val, seen, out, d+1)
+		}
+	case ssa.Instruction:
+		for _, op := range x.Operands(nil) {
+			if op != nil && *op != nil {
+				paramRoots(*op, seen, out, d+1)
+			}
+		}
+	}
+}
+
+// ruleTimeRangeIndependentFlags (PV-GUARD): each of --since, --start and --end is parsed (and so
+// validated) whenever it is given, whatever the other flags say: the parse of one flag's value
+// runs under no condition computed from another flag.
+func ruleTimeRangeIndependentFlags(r *Run) {
+	p := r.P
+	o := r.Ob("PV-GUARD", "main.parseTimeRange flags parsed independently", "a flag's value is parsed under conditions on that flag only (and on earlier parse errors): a malformed --since/--start/--end is rejected whatever the other flags are")
+	fn := p.Func(cmdPkg, "parseTimeRange")
+	if fn == nil {
+		o.Fail("-", "parseTimeRange not found")
+		return
+	}
+	n, good := 0, true
+	for _, c := range callsIn(fn) {
+		call, ok := c.(*ssa.Call)
+		if !ok {
+			continue
+		}
+		callee := staticCallee(call)
+		if callee == nil {
+			continue
+		}
+		isParse := false
+		if pk, nm := calleePkgName(call); strings.HasSuffix(pk, "prometheus/common/model") && nm == "ParseDuration" {
+			isParse = true
+		}
+		if pkgOfFunc(callee) == pkgOfFunc(fn) && callee.Signature.Results().Len() == 2 && isErrorType(callee.Signature.Results().At(1).Type()) {
+			isParse = true
+		}
+		if !isParse {
+			continue
+		}
+		// the flag this call parses: the flag-typed parameters its arguments are computed from
+		own := map[*ssa.Parameter]bool{}
+		for _, a := range call.Call.Args {
+			paramRoots(a, map[ssa.Value]bool{}, own, 0)
+		}
+		isFlag := func(q *ssa.Parameter) bool {
+			return strings.HasPrefix(typeKey(q.Type()), "Opt")
+		}
+		var ownFlags []*ssa.Parameter
+		for q := range own {
+			if isFlag(q) {
+				ownFlags = append(ownFlags, q)
+			}
+		}
+		if len(ownFlags) == 0 {
+			continue
+		}
+		n++
+		for _, f := range factsAt(call.Block()) {
+			if x, _, ok := nilCheck(f.Cond); ok && isErrorType(x.Type()) {
+				continue
+			}
+			roots := map[*ssa.Parameter]bool{}
+			paramRoots(f.Cond, map[ssa.Value]bool{}, roots, 0)
+			for q := range roots {
+				if isFlag(q) && !own[q] {
+					good = false
+					o.Fail(r.pos(call.Pos()), "the value of %s is parsed only under a condition on %s: given together, a malformed value is silently ignored", ownFlags[0].Name(), q.Name())
+				}
+			}
+		}
+	}
+	if n < 3 {
+		o.Fail(r.pos(fn.Pos()), "only %d flag parse call(s) found in parseTimeRange, expected since/end/start", n)
+		return
+	}
+	if good {
+		o.OK("%d parse calls, each conditioned on its own flag only", n).At(r.pos(fn.Pos()))
+	}
+}
+
+// ruleAPIFlagVerbatim (PV-ROLE): a flag's text reaches the parser as typed: APIFlag.Set stores
+// its argument, converted to the flag's string type and nothing else.
+func ruleAPIFlagVerbatim(r *Run) {
+	p := r.P
+	o := r.Ob("PV-ROLE", "main.(*APIFlag).Set", "the flag value is stored verbatim (type conversion only): the documented spellings - RFC3339 with its upper-case T/Z included - reach the parser unchanged")
+	n, good := 0, true
+	for _, fn := range p.SrcFuncs() {
+		if pkgPathOf(fn) != modPath+"/"+cmdPkg || fn.Signature.Recv() == nil || len(fn.Params) != 2 {
+			continue
+		}
+		if typeKey(derefType(fn.Signature.Recv().Type())) != "APIFlag" && !strings.HasPrefix(typeKey(derefType(fn.Signature.Recv().Type())), "APIFlag[") {
+			continue
+		}
+		if !isStringType(fn.Params[1].Type()) || fn.Signature.Results().Len() != 1 || !isErrorType(fn.Signature.Results().At(0).Type()) {
+			continue
+		}
+		n++
+		stored := 0
+		for _, c := range callsIn(fn) {
+			cc := c.Common()
+			isSet := false
+			if cc.IsInvoke() && cc.Method.Name() == "SetTo" {
+				isSet = true
+			} else if callee := staticCallee(c); callee != nil && callee.Name() == "SetTo" {
+				isSet = true
+			}
+			if !isSet {
+				continue
+			}
+			stored++
+			arg := cc.Args[len(cc.Args)-1]
+			if stripTypeOnly(stripConv(unspill(arg))) != ssa.Value(fn.Params[1]) {
+				good = false
+				o.Fail(r.pos(c.Pos()), "%s stores %s, not its argument as given", shortFuncName(fn), describe(arg, 0))
+			}
+		}
+		if stored == 0 {
+			good = false
+			o.Fail(r.pos(fn.Pos()), "%s does not store its argument with SetTo", shortFuncName(fn))
+		}
+	}
+	if n == 0 {
+		o.Fail("-", "APIFlag.Set not found")
+		return
+	}
+	if good {
+		o.OK("%d Set method(s): Val.SetTo(S(val))", n)
+	}
+}
+
+// ruleRenderOptionsOnlyFlags (PV-CONST): what the user asked for on the command line is what
+// the renderer gets: the fields of renderOptions are written by flag parsing only (their
+// addresses are registered with the flag set), no code assigns them.
+func ruleRenderOptionsOnlyFlags(r *Run) {
+	p := r.P
+	o := r.Ob("PV-CONST", "main.renderOptions", "the rendering options are written by flag parsing only: an explicit --color/--timestamp/--container is never overridden at run time")
+	nReg, good := 0, true
+	for _, fn := range p.SrcFuncs() {
+		if pkgPathOf(fn) != modPath+"/"+cmdPkg {
+			continue
+		}
+		allInstrs(fn, func(in ssa.Instruction) {
+			switch x := in.(type) {
+			case *ssa.Store:
+				if f, base, ok := fieldNameOf(x.Addr); ok && typeKey(derefType(base.Type())) == "renderOptions" {
+					good = false
+					o.Fail(r.pos(x.Pos()), "%s assigns renderOptions.%s: the value of the flag the user gave is overridden", shortFuncName(fn), f)
+				}
+			case ssa.CallInstruction:
+				for _, a := range x.Common().Args {
+					if _, base, ok := fieldNameOf(a); ok && typeKey(derefType(base.Type())) == "renderOptions" {
+						if pk, _ := calleePkgName(x); strings.HasSuffix(pk, "spf13/pflag") {
+							nReg++
+						} else {
+							good = false
+							o.Fail(r.pos(x.Pos()), "%s hands the address of a renderOptions field to %s", shortFuncName(fn), calleeName(x))
+						}
+					}
+				}
+			}
+		})
+	}
+	if nReg < 3 {
+		o.Fail("-", "only %d renderOptions field(s) registered as flags, expected timestamp/container/color", nReg)
+		return
+	}
+	if good {
+		o.OK("%d fields registered with the flag set, no other write", nReg)
+	}
+}
+
+// ruleAttrMapZeroGuard (PF-NIL): an attribute map of a record may be unset (the zero pcommon.Map,
+// whose methods dereference a nil state): in the engine every method call on a map obtained
+// from Attrs.AsMap() runs only where the map was compared unequal to the zero Map.
+func ruleAttrMapZeroGuard(r *Run) {
+	p := r.P
+	o := r.Ob("PF-NIL", "logqlengine attribute maps", "no pcommon.Map method is called on a record's attribute map that may be the zero Map (records of the Docker backend carry no scope attributes): the call is guarded by m != pcommon.Map{}")
+	n, good := 0, true
+	for _, fn := range p.SrcFuncs() {
+		if pkgPathOf(fn) != modPath+"/"+enginePkg {
+			continue
+		}
+		for _, c := range callsIn(fn) {
+			call, ok := c.(*ssa.Call)
+			if !ok || !callIs(call, modPath+"/internal/otelstorage", "(Attrs).AsMap") {
+				continue
+			}
+			for _, ref := range *call.Referrers() {
+				mc, ok := ref.(*ssa.Call)
+				if !ok || mc.Common().IsInvoke() || len(mc.Call.Args) == 0 || mc.Call.Args[0] != ssa.Value(call) {
+					continue
+				}
+				if pk, _ := calleePkgName(mc); !strings.HasSuffix(pk, "pdata/pcommon") {
+					continue
+				}
+				n++
+				guarded := false
+				for _, f := range factsAt(mc.Block()) {
+					b, ok := f.Cond.(*ssa.BinOp)
+					if !ok || (b.Op != token.EQL && b.Op != token.NEQ) {
+						continue
+					}
+					other := b.Y
+					if b.Y == ssa.Value(call) {
+						other = b.X
+					} else if b.X != ssa.Value(call) {
+						continue
+					}
+					if k, ok := other.(*ssa.Const); ok && k.Value == nil && (b.Op == token.EQL) != f.Truth {
+						guarded = true
+					}
+				}
+				if !guarded {
+					good = false
+					o.Fail(r.pos(mc.Pos()), "%s calls %s on an attribute map that may be the zero Map: nil dereference for a record without these attributes", shortFuncName(fn), calleeName(mc))
+				}
+			}
+		}
+	}
+	if n == 0 {
+		o.Fail("-", "no method call on an Attrs.AsMap() result found in the engine")
+		return
+	}
+	if good {
+		o.OK("%d call(s), all under m != pcommon.Map{}", n)
+	}
+}
+
+// ruleLabelSetReadersPure (PV-PURE): reading a label never changes the label set: the read
+// accessors of LabelSet do not store into the label map (a filter that rewrote the value it
+// read would change what the next filter sees, so filters would not commute).
+func ruleLabelSetReadersPure(r *Run) {
+	p := r.P
+	o := r.Ob("PV-PURE", "logqlengine.(*LabelSet) read accessors", "Get, GetString, GetFloat, GetError, AsMap, AsLokiAPI, String and Range do not modify the label set")
+	n, good := 0, true
+	writers := map[*ssa.Function]bool{}
+	for _, nm := range []string{"Set", "Delete", "SetError", "SetAttrs", "SetFromRecord", "reset"} {
+		if m := p.Method(enginePkg, "LabelSet", nm); m != nil {
+			writers[m] = true
+		}
+	}
+	for _, nm := range []string{"Get", "GetString", "GetFloat", "GetError", "AsMap", "AsLokiAPI", "String", "Range"} {
+		m := p.Method(enginePkg, "LabelSet", nm)
+		if m == nil {
+			continue
+		}
+		n++
+		for _, fn := range funcGroup(m) {
+			if writers[fn] {
+				good = false
+				o.Fail(r.pos(m.Pos()), "%s reaches %s", shortFuncName(m), shortFuncName(fn))
+				continue
+			}
+			allInstrs(fn, func(in ssa.Instruction) {
+				switch x := in.(type) {
+				case *ssa.MapUpdate:
+					if f, _, ok := loadOfField(x.Map); ok && f == "labels" {
+						good = false
+						o.Fail(r.pos(x.Pos()), "%s stores into the label map while reading a label", shortFuncName(m))
+					}
+				case *ssa.Call:
+					if bi, ok := x.Call.Value.(*ssa.Builtin); ok && (bi.Name() == "delete" || bi.Name() == "clear") && len(x.Call.Args) > 0 {
+						if f, _, ok := loadOfField(x.Call.Args[0]); ok && f == "labels" {
+							good = false
+							o.Fail(r.pos(x.Pos()), "%s deletes from the label map while reading a label", shortFuncName(m))
+						}
+					}
+				}
+			})
+		}
+	}
+	if n < 6 {
+		o.Fail("-", "only %d read accessors of LabelSet found", n)
+		return
+	}
+	if good {
+		o.OK("%d accessors, none writes the label map", n)
+	}
+}
+
+// ruleSampleValueFormat (PV-ROLE): the value of a reported point is the sample's float64 printed
+// by strconv.FormatFloat(v, 'f', -1, 64) on every path (a shortcut through an integer
+// conversion wraps for |v| >= 2^63 and for infinities).
+func ruleSampleValueFormat(r *Run) {
+	p := r.P
+	o := r.Ob("PV-ROLE", "logqlmetric.ReadStepResponse point value", "every reported value is strconv.FormatFloat(sample, 'f', -1, 64) of the sample's data, on every path")
+	rs := p.Func(metricPkg, "ReadStepResponse")
+	if rs == nil {
+		o.Fail("-", "ReadStepResponse not found")
+		return
+	}
+	grp := funcGroup(rs)
+	var isFmt func(v ssa.Value, d int) (bool, string)
+	isFmt = func(v ssa.Value, d int) (bool, string) {
+		if d > 4 {
+			return false, "formatting helper chain too deep"
+		}
+		v = unspill(v)
+		switch x := v.(type) {
+		case *ssa.Phi:
+			for _, e := range x.Edges {
+				if ok, why := isFmt(e, d+1); !ok {
+					return false, why
+				}
+			}
+			return true, ""
+		case *ssa.Call:
+			if pk, nm := calleePkgName(x); pk == "strconv" {
+				if nm != "FormatFloat" || len(x.Call.Args) != 4 {
+					return false, "formatted by strconv." + nm
+				}
+				f, ok1 := constInt(x.Call.Args[1])
+				pr, ok2 := constInt(x.Call.Args[2])
+				bs, ok3 := constInt(x.Call.Args[3])
+				if !ok1 || !ok2 || !ok3 || f != 'f' || pr != -1 || bs != 64 {
+					return false, "FormatFloat is called with format/precision/size other than 'f', -1, 64"
+				}
+				return true, ""
+			}
+			callee := staticCallee(x)
+			if callee == nil || callee.Blocks == nil || pkgOfFunc(callee) != pkgOfFunc(rs) {
+				return false, "produced by " + describe(x, 0)
+			}
+			n := 0
+			for _, ret := range returnsOf(callee) {
+				if len(ret.Results) != 1 {
+					return false, "helper with several results"
+				}
+				n++
+				if ok, why := isFmt(ret.Results[0], d+1); !ok {
+					return false, shortFuncName(callee) + ": " + why
+				}
+			}
+			return n > 0, "helper without return"
+		}
+		return false, "is " + describe(v, 0)
+	}
+	n, good := 0, true
+	for _, fn := range grp {
+		allInstrs(fn, func(in ssa.Instruction) {
+			st, ok := in.(*ssa.Store)
+			if !ok {
+				return
+			}
+			f, base, ok := fieldNameOf(st.Addr)
+			if !ok || f != "V" || typeKey(derefType(base.Type())) != "FPoint" {
+				return
+			}
+			n++
+			if ok, why := isFmt(st.Val, 0); !ok {
+				good = false
+				o.Fail(r.pos(st.Pos()), "a point's value %s", why)
+			}
+		})
+	}
+	if n < 2 {
+		o.Fail(r.pos(rs.Pos()), "only %d store(s) of FPoint.V found (instant and range form expected)", n)
+		return
+	}
+	if good {
+		o.OK("%d point value(s), all strconv.FormatFloat(v, 'f', -1, 64)", n).At(r.pos(rs.Pos()))
+	}
+}
+
+// ruleBuildKeepsTree (PV-ROLE): the evaluation builder evaluates the tree the parser produced:
+// it constructs no expression node of its own (re-associating or folding operands changes the
+// grouping the query's parentheses and precedences fixed).
+func ruleBuildKeepsTree(r *Run) {
+	p := r.P
+	o := r.Ob("PV-ROLE", "logqlmetric.build tree", "the step-iterator builder constructs no logql expression node: every operator is evaluated with the operands the parse tree gives it")
+	bf := p.Func(metricPkg, "build")
+	if bf == nil {
+		o.Fail("-", "build not found")
+		return
+	}
+	good := true
+	nFn := 0
+	for _, fn := range p.SrcFuncs() {
+		if pkgPathOf(fn) != modPath+"/"+metricPkg {
+			continue
+		}
+		nFn++
+		allInstrs(fn, func(in ssa.Instruction) {
+			al, ok := in.(*ssa.Alloc)
+			if !ok {
+				return
+			}
+			t := derefType(al.Type())
+			nt, ok := types.Unalias(t).(*types.Named)
+			if !ok || nt.Obj().Pkg() == nil || nt.Obj().Pkg().Path() != modPath+"/"+logqlPkg || !strings.HasSuffix(nt.Obj().Name(), "Expr") {
+				return
+			}
+			// a local copy of a node (value receiver spill) is not a construction: it is filled by one store of a loaded node
+			sts := storesTo(al)
+			if len(sts) == 1 {
+				if _, isLoad := sts[0].Val.(*ssa.UnOp); isLoad {
+					return
+				}
+				if _, isParam := sts[0].Val.(*ssa.Parameter); isParam {
+					return
+				}
+			}
+			good = false
+			o.Fail(r.pos(al.Pos()), "%s constructs a logql.%s: the evaluated tree is no longer the parsed one", shortFuncName(fn), nt.Obj().Name())
+		})
+	}
+	if good {
+		o.OK("%d function(s) of the metric package, no expression node constructed", nFn).At(r.pos(bf.Pos()))
+	}
+}
